@@ -1,7 +1,7 @@
 (* C19 -- Views show exactly what is in the data.  Property theorems only. *)
 From Coq Require Import List NArith Bool.
 From FP Require Import Model.Base Model.ItsWords Model.ItsFsm Model.Rdh Model.Payload Model.Scanner Model.Views.
-From FP Require Import Spec.WordLayout Spec.Diagram Spec.DiagramAbs Proofs.Bits Proofs.C19_proofs.
+From FP Require Import Spec.WordLayout Spec.Diagram Spec.DiagramAbs Proofs.Bits Proofs.C19_proofs Proofs.C19_det.
 From FP Require Gen.Facts.
 Import ListNotations.
 Open Scope N_scope.
@@ -56,6 +56,12 @@ Proof. exact (c19_tdt_done_when _ eq_refl eq_refl). Qed.
 (* lane faults of TDT / DDW0: the worst status among the 28 two-bit lane fields [55:0] *)
 Theorem C19_lane_faults : forall w, word_ok w -> view_lane_status w = worst (lane_stats w).
 Proof. exact (c19_lane_status_when _ eq_refl eq_refl). Qed.
+(* the "lane faults" column of an RDH row: the detector field's status bits -- 3 fatal, 2 error, 1 warning, 0 lane missing data --
+   and the most severe one set is the one shown (codes of the model: 3 fatal, 2 error, 1 warning, 4 missing, 0 none) *)
+Theorem C19_rdh_lane_faults : forall d,
+  det_lane_status d = if N.testbit d 3 then 3 else if N.testbit d 2 then 2 else if N.testbit d 1 then 1 else if N.testbit d 0 then 4 else 0.
+Proof. exact det_lane_status_spec. Qed.
+
 Theorem C19_lanes_are_0_to_27 : lane_ids = map N.of_nat (seq 0 28).
 Proof. exact lane_ids_are_0_27. Qed.
 
@@ -77,6 +83,7 @@ Print Assumptions C19_quoted_bytes.
 Print Assumptions C19_tdh_attributes.
 Print Assumptions C19_tdt_packet_status.
 Print Assumptions C19_lane_faults.
+Print Assumptions C19_rdh_lane_faults.
 Print Assumptions C19_lanes_are_0_to_27.
 Print Assumptions C19_agrees_with_checker.
 Print Assumptions C19_refuted_batch_format.
